@@ -105,7 +105,7 @@ impl Members {
             if old_addr != actor.addr() {
                 member.ring = None;
                 if self.by_addr.get(&old_addr) == Some(&actor_id) {
-                    self.by_addr.remove(&old_addr);
+                    self.reindex_addr(old_addr);
                 }
                 self.by_addr.insert(actor.addr(), actor_id);
                 self.recalculate_rings(actor.addr());
@@ -132,12 +132,37 @@ impl Members {
             false
         };
 
-        if effectively_down {
-            self.by_addr.remove(&actor.addr());
-            self.states.remove(&actor.id());
+        if effectively_down
+            && let Some(removed) = self.states.remove(&actor.id())
+            && self.by_addr.get(&removed.addr) == Some(&actor.id())
+        {
+            // the address can be listed for another member too (an address taken
+            // over by a different actor): the index entry is only ours to drop
+            // when it points at us, and the other member then takes it over
+            self.reindex_addr(removed.addr);
         }
 
         effectively_down
+    }
+
+    /// Point the address index at a member still listed with `addr` (the one with
+    /// the newest identity), or drop the entry when nobody is.
+    fn reindex_addr(&mut self, addr: SocketAddr) {
+        let holder = self
+            .states
+            .iter()
+            .filter(|(_, state)| state.addr == addr)
+            .max_by_key(|(_, state)| state.ts.to_duration())
+            .map(|(id, _)| *id);
+        match holder {
+            Some(id) => {
+                self.by_addr.insert(addr, id);
+                self.recalculate_rings(addr);
+            }
+            None => {
+                self.by_addr.remove(&addr);
+            }
+        }
     }
 
     pub fn add_rtt(&mut self, addr: SocketAddr, rtt: Duration) {
